@@ -58,6 +58,18 @@ def sweeps(tier):
                         continue
                 cases.append({'kind': d + ':8', 'fields': {'sub': sub, 'data': [w]}})
     out.append(('diagnostic-subfunctions', cases, True))
+    # Read Device Identification responses up to the exact fit (246 bytes of objects = a 253-byte PDU)
+    cases = []
+    for total in range(236, 247):
+        for piece in (244, 121, 60):
+            objs, left, oid = [], total, 0
+            while left > 2:
+                n = min(left - 2, piece)
+                objs.append([oid if oid < 7 else 0x80 + oid, ('%02x' % (0x41 + oid)) * n])
+                left -= n + 2
+                oid += 1
+            cases.append({'kind': 'rsp:43', 'fields': {'read_code': 3, 'conformity': 0x83, 'more': 0, 'next_id': 0, 'objects': objs}})
+    out.append(('identification-responses-up-to-the-exact-fit', cases, True))
     return out
 
 
